@@ -95,6 +95,59 @@ class CppLayout(V.CppEkfInit):
             P.oblige(f"{pre}.sensorlist_sorted_by_sensor_key", z3.BoolVal(False), note="sensorlist is not a sequence of (key, model, noise) triples")
 
 
+class CppModelLayout(Contract):
+    """cpp.Model.__init__(symbolic_model, calibration_map, namespace, header_include, config)
+    ensures  raises only ModelConstructionError, only for a calibration arity fault; otherwise arglist_state/_calibration/_control are the declared
+             symbols sorted by name, arglist = [dt] + AS + ACal + AU, sizes are the cardinalities."""
+
+    key = "formak.cpp:Model.__init__"
+    inline = ("formak.common:named_vector", "formak.common:named_covariance")
+
+    def __init__(self, container="set"):
+        self.container = container
+        self.prefix = f"C15.cxxgen.Model.__init__[{container}]"
+
+    def setup(self, I):
+        P = I.path
+        D = V.Definition(I, self.container)
+        P.ghost["definition"] = D
+        P.ghost["site"] = self.prefix
+        mod = I.load_module("formak.cpp")
+        obj = SObj(I.module_attr(mod, "Model"), {}, "generator")
+        return Call([obj, D.ui, D.cm, "ns", "h.h", SObj("Config", {"common_subexpression_elimination": True}, "config")], {}, D=D, obj=obj)
+
+    def post(self, I, call, outcome):
+        P, D, pre = I.path, call.D, self.prefix
+        n, c, k = card_f(D.S.term), card_f(D.Cal.term), card_f(D.U.term)
+        cal_arity = z3.And(c > 0, z3.Or(D.cm.n == 0, D.cm.n != c))
+        if outcome[0] == "raise":
+            P.oblige(f"{pre}.only_ModelConstructionError", z3.BoolVal(outcome[1] == "ModelConstructionError"), note=f"raises {outcome[1]}")
+            P.oblige(f"{pre}.refuses_only_calibration_arity_faults", cal_arity)
+            return
+        P.oblige(f"{pre}.refuses.calibration_arity", z3.Not(cal_arity))
+        f = call.obj.fields
+        i = z3.Int("i_any")
+        for fld, st in (("arglist_state", D.S), ("arglist_calibration", D.Cal), ("arglist_control", D.U)):
+            a = f.get(fld)
+            ok = isinstance(a, SSeq)
+            P.oblige(f"{pre}.{fld}_sorted_by_name", z3.And(a.len_z() == card_f(st.term), z3.Implies(z3.And(i >= 0, i < card_f(st.term)), a.at(i).z == srt_f(st.term, i))) if ok else z3.BoolVal(False))
+        al = f.get("arglist")
+        if isinstance(al, SSeq):
+            want = z3.If(i == 0, D.ui.fields["dt"].z, z3.If(i < 1 + n, srt_f(D.S.term, i - 1), z3.If(i < 1 + n + c, srt_f(D.Cal.term, i - 1 - n), srt_f(D.U.term, i - 1 - n - c))))
+            P.oblige(f"{pre}.arglist_layout", z3.And(al.len_z() == 1 + n + c + k, z3.Implies(z3.And(i >= 0, i < 1 + n + c + k), al.at(i).z == want)))
+        else:
+            P.oblige(f"{pre}.arglist_layout", z3.BoolVal(False))
+        for fld, want in (("state_size", n), ("calibration_size", c), ("control_size", k)):
+            P.oblige(f"{pre}.{fld}", to_int(f.get(fld)) == want if f.get(fld) is not None else z3.BoolVal(False))
+
+
+def cpp_model_callees():
+    c = dict(V.cpp_init_callees())
+    for nm in ("_translate_model", "_translate_return"):
+        c[f"formak.cpp:Model.{nm}"] = V.OpaqueApply(f"formak.cpp:Model.{nm}")
+    return c
+
+
 def items(tier="quick"):
     out = []
     for cont in ("set", "list"):
@@ -102,6 +155,9 @@ def items(tier="quick"):
         if cont == "set" or tier == "thorough":
             # `_return` is the stub result of the opaque callee _translate_return (a function of arglist_state, see the generator contracts)
             out.append((OrderFree(CppLayout(cont), f"C15.cxxgen.ExtendedKalmanFilter.__init__[{cont}]", lambda call, oc: call.obj, unmodelled_ok=("_return",)), V.cpp_init_callees()))
+    out.append((OrderFree(CppModelLayout("set"), "C15.cxxgen.Model.__init__[set]", lambda call, oc: call.obj, unmodelled_ok=("_return",)), cpp_model_callees()))
+    if tier == "thorough":
+        out.append((OrderFree(CppModelLayout("list"), "C15.cxxgen.Model.__init__[list]", lambda call, oc: call.obj, unmodelled_ok=("_return",)), cpp_model_callees()))
     out.append((OrderFree(pyekf.SensorModelInit(), "C15.py.SensorModel.__init__", lambda call, oc: call.obj), pyekf.sensor_init_callees()))
     out.append((OrderFree(pyekf.ConstructProcessNoise(), "C15.py._construct_process", lambda call, oc: call.ekf), pyekf.construct_callees()))
     out.append((OrderFree(pyekf.ConstructSensors(), "C15.py._construct_sensors", lambda call, oc: call.ekf), pyekf.sensors_callees()))
